@@ -122,8 +122,11 @@ func runC08(rcx *RunCtx) {
 	} else if k -= walkRaceCount(); k >= 0 && k < deepFenceCount() {
 		runDeepFence(rcx, k)
 		return
+	} else if k -= deepFenceCount(); k >= 0 && k < renameRaceCount() {
+		runRenameRace(rcx, k)
+		return
 	}
-	if !(rcx.Index < c08SweepSize(rcx.Tier)+createRaceCount()+walkRaceCount()+deepFenceCount()) && rcx.Plan.Choose(5) == 0 {
+	if !(rcx.Index < c08SweepSize(rcx.Tier)+createRaceCount()+walkRaceCount()+deepFenceCount()+renameRaceCount()) && rcx.Plan.Choose(5) == 0 {
 		// a pair of the C06/C07 catalogue under a tape-chosen schedule; its
 		// aftermath is checked for path coherence and usable fids
 		runPair(rcx, pairCatalogue[rcx.Plan.Choose(len(pairCatalogue))])
@@ -376,9 +379,9 @@ func init() {
 		ID:   "C08",
 		Desc: "path coherence under rename/unlink, fencing of deleted paths (identity model + path-based backend)",
 		Run:  runC08,
-		Directed: func(tier string) int { return c08SweepSize(tier) + createRaceCount() + walkRaceCount() + deepFenceCount() },
+		Directed: func(tier string) int { return c08SweepSize(tier) + createRaceCount() + walkRaceCount() + deepFenceCount() + renameRaceCount() },
 		Quick:    96000, Thorough: 4500000, QuickSecs: 60, ThorSecs: 1500,
-		Rule: fmt.Sprintf("sweep: from a state with fids bound to /a, /a/a, /a/a/a, /a/b, /b, /b/a, /c and a fenced fid on an unlinked /b/z whose name exists again, ALL sequences of depth 2 (quick) / 3 (thorough) over an alphabet of %d requests (24 Trename, 38 Trenameat incl. over existing targets and of whole subtrees, 8 Tunlinkat, 5 Tremove, 6 Tmkdir re-creating names, walks, clone, create); create-race: a Tlcreate parked in the backend while a rename / replace / unlink of the very name it creates (6 kinds, same or other connection) queues behind it, released under %d tape-chosen schedules each, then the created fid is probed, cloned and moved; walk-race: a two-component Twalk parked at its second step while a rename of the first or second component or an unlink of the second queues behind it (4 kinds x same/other connection x 32 schedules); deep-fence: a backend that lets non-empty directories go, fids one, two and three levels below an entry that is unlinked or overwritten are all fenced; ", len(c08Alphabet), createRaceSchedules) + "random: 1/5 a pair of the C06/C07 catalogue (A parked in its backend call, B queued or running, A released) under a tape-chosen schedule, then coherence and clone/getattr probes; 4/5 random histories of 8-68 requests (walk 1-3 components, clone, mkdir, create, rename, renameat incl. over existing targets and whole subtrees, unlinkat, remove, clunk, open/write) on 1-2 lock-step connections with up to 8 fids each on the same and nested paths of a depth-3 tree over names {a,b,c}. In a third of all runs the backend lets non-empty directories be unlinked or overwritten, so fids several levels below a removed entry exist. After EVERY request: (1) every live handle of the path-based backend resolves to the object it was bound to; (2) Tgetattr through every unfenced fid on every connection reports the bound inode; (3) fenced fids answer a child walk as the session model prescribes; (4) a successful rename put the inode where the request said; all replies also checked against the C04 session model (fencing errnos, no backend call). Non-trivial = the history contains a rename or unlink.",
+		Rule: fmt.Sprintf("sweep: from a state with fids bound to /a, /a/a, /a/a/a, /a/b, /b, /b/a, /c and a fenced fid on an unlinked /b/z whose name exists again, ALL sequences of depth 2 (quick) / 3 (thorough) over an alphabet of %d requests (24 Trename, 38 Trenameat incl. over existing targets and of whole subtrees, 8 Tunlinkat, 5 Tremove, 6 Tmkdir re-creating names, walks, clone, create); create-race: a Tlcreate parked in the backend while a rename / replace / unlink of the very name it creates (6 kinds, same or other connection) queues behind it, released under %d tape-chosen schedules each, then the created fid is probed, cloned and moved; walk-race: a two-component Twalk parked at its second step while a rename of the first or second component or an unlink of the second queues behind it (4 kinds x same/other connection x 32 schedules); deep-fence: a backend that lets non-empty directories go, fids one, two and three levels below an entry that is unlinked or overwritten are all fenced; rename-race: a Trenameat of an entry parked in the backend while a Trename or Tremove through a fid on that entry queues behind it and must use the new name; ", len(c08Alphabet), createRaceSchedules) + "random: 1/5 a pair of the C06/C07 catalogue (A parked in its backend call, B queued or running, A released) under a tape-chosen schedule, then coherence and clone/getattr probes; 4/5 random histories of 8-68 requests (walk 1-3 components, clone, mkdir, create, rename, renameat incl. over existing targets and whole subtrees, unlinkat, remove, clunk, open/write) on 1-2 lock-step connections with up to 8 fids each on the same and nested paths of a depth-3 tree over names {a,b,c}. In a third of all runs the backend lets non-empty directories be unlinked or overwritten, so fids several levels below a removed entry exist. After EVERY request: (1) every live handle of the path-based backend resolves to the object it was bound to; (2) Tgetattr through every unfenced fid on every connection reports the bound inode; (3) fenced fids answer a child walk as the session model prescribes; (4) a successful rename put the inode where the request said; all replies also checked against the C04 session model (fencing errnos, no backend call). Non-trivial = the history contains a rename or unlink.",
 		Assume: []string{"object identity = backend inode number; fenced = the backend's own record that the directory entry the handle named was removed or overwritten"},
 		Real:   []string{"p9.Server", "p9 path tree / fid table / handlers", "p9 wire codec"},
 		Stub:   []string{"transport (simnet pipes)", "backend tree (simfs, path-based handles)", "raw 9P peer (refcodec)"},
